@@ -292,8 +292,18 @@ def run(case, out):
             r3 = s.search(q, limit=3)
             for h in r3:
                 if h["k"] in got and not close(h.score, got[h["k"]]):
-                    out.fail("c09.score_depends_on_limit", {"q": qj, "doc": h["k"], "limit3": h.score,
-                                                            "unlimited": got[h["k"]], "weighting": wcfg})
+                    sig = "c09.score_depends_on_limit"
+                    if any(x.get("boost", 1.0) > 1.0 and x["op"] in ("and", "or", "dismax") for x in walk(qj)):
+                        # recorded finding (C05/C12): WrappingMatcher.replace() does not divide the threshold by the
+                        # boost, so under a limit a boosted compound is rewritten too hard (pinned by
+                        # tests/test_quality.py::test_replacements). Attributed only when the same query without the
+                        # > 1 compound boosts scores the same with and without the limit.
+                        from wv.props.c05 import strip_big_boosts
+                        q0 = to_whoosh(strip_big_boosts(qj))
+                        full0 = dict((h0["k"], h0.score) for h0 in s.search(q0, limit=None))
+                        if all(close(h0.score, full0.get(h0["k"], h0.score)) for h0 in s.search(q0, limit=3)):
+                            sig = "c09.known_trigger:compound_boost_gt1"
+                    out.fail(sig, {"q": qj, "doc": h["k"], "limit3": h.score, "unlimited": got[h["k"]], "weighting": wcfg})
                     break
             # ... nor on whether the matching terms are recorded (which makes every matcher "need the current" entry)
             rt = s.search(q, limit=None, terms=True)
